@@ -74,6 +74,7 @@ type verifC04Kid struct {
 	foreignUID string
 	deleting   bool
 	live       int
+	late       bool // since the cache was filled somebody added a further (non-controller) owner to the live object
 }
 
 // verifC04DrawKid draws one object. full=false restricts the variety (used for
@@ -129,6 +130,9 @@ func verifC04DrawKid(i int, full bool, revision bool, selVal string, cachedDelet
 		default:
 			k.live = verifC04Pick("live"+n, 3)
 		}
+		if full && k.live == verifC04LiveSame {
+			k.late = rt.Bool("late-owner" + n)
+		}
 	}
 	return k
 }
@@ -157,6 +161,24 @@ func verifC04Refs(k *verifC04Kid, withOurs, withRival bool) []metav1.OwnerRefere
 		out = append(out, metav1.OwnerReference{APIVersion: "ex.com/v1", Kind: "Thing", Name: "p", UID: "puid", Controller: &t, BlockOwnerDeletion: &t})
 	}
 	return out
+}
+
+// verifC04LiveRefs: the owner references the LIVE object has (withOurs as in
+// verifC04Refs): the cached ones plus, when k.late, an owner somebody added later.
+func verifC04LiveRefs(k *verifC04Kid, withOurs bool) []metav1.OwnerReference {
+	refs := verifC04Refs(k, withOurs, false)
+	if !k.late {
+		return refs
+	}
+	lateRef := metav1.OwnerReference{APIVersion: "v1", Kind: "Other", Name: "z", UID: "zuid"}
+	if k.owner == verifC04Orphan && withOurs {
+		// adoption appends our reference after everything that is there
+		n := len(refs)
+		out := append([]metav1.OwnerReference{}, refs[:n-1]...)
+		out = append(out, lateRef, refs[n-1])
+		return out
+	}
+	return append(refs, lateRef)
 }
 
 func verifC04RefMaps(refs []metav1.OwnerReference) []interface{} {
@@ -299,6 +321,11 @@ func VerifC04_ClaimChildren() {
 		switch k.live {
 		case verifC04LiveSame:
 			l = c.DeepCopy()
+			if k.late {
+				rt.Cover("live-has-a-later-owner")
+				l.Object["metadata"].(map[string]interface{})["ownerReferences"] = verifC04RefMaps(verifC04LiveRefs(k, k.owner == verifC04Ours))
+				l.SetResourceVersion("8")
+			}
 		case verifC04LiveReplaced:
 			l = verifC04Child(k, "u"+verifC04Num[i]+"-recreated", false)
 		case verifC04LiveRival:
@@ -453,10 +480,10 @@ func VerifC04_ClaimChildren() {
 				firstAdoptWrite = j
 			}
 			rt.Assert(r.Accepted, "adopt/rejected-by-server")
-			verifC04RefsEqual(r.Body.GetOwnerReferences(), verifC04Refs(k, true, false), "adopt/ownerReferences")
+			verifC04RefsEqual(r.Body.GetOwnerReferences(), verifC04LiveRefs(k, true), "adopt/ownerReferences")
 		case "release":
 			rt.Assert(r.Accepted, "release/rejected-by-server")
-			verifC04RefsEqual(r.Body.GetOwnerReferences(), verifC04Refs(k, false, false), "release/ownerReferences")
+			verifC04RefsEqual(r.Body.GetOwnerReferences(), verifC04LiveRefs(k, false), "release/ownerReferences")
 		case "rejected":
 			if firstAdoptWrite < 0 {
 				firstAdoptWrite = j
@@ -495,9 +522,9 @@ func VerifC04_ClaimChildren() {
 		rt.Assert(verifC04CountControllers(refs) <= 1, "store/two-controller-references")
 		switch written[i] {
 		case "adopt":
-			verifC04RefsEqual(refs, verifC04Refs(k, true, false), "store/adopted-ownerReferences")
+			verifC04RefsEqual(refs, verifC04LiveRefs(k, true), "store/adopted-ownerReferences")
 		case "release":
-			verifC04RefsEqual(refs, verifC04Refs(k, false, false), "store/released-ownerReferences")
+			verifC04RefsEqual(refs, verifC04LiveRefs(k, false), "store/released-ownerReferences")
 		default:
 			gen.Equal(st.Object, live[i].Object, "store/untouched-child-changed")
 		}
@@ -594,6 +621,11 @@ func VerifC04_RevisionClaims() {
 		switch k.live {
 		case verifC04LiveSame:
 			l = c.DeepCopy()
+			if k.late {
+				rt.Cover("live-has-a-later-owner")
+				l.OwnerReferences = verifC04LiveRefs(k, k.owner == verifC04Ours)
+				l.ResourceVersion = "8"
+			}
 		case verifC04LiveReplaced:
 			l = verifC04Revision(k, "u"+verifC04Num[i]+"-recreated", false)
 		case verifC04LiveRival:
@@ -742,10 +774,10 @@ func VerifC04_RevisionClaims() {
 				firstAdoptWrite = j
 			}
 			rt.Assert(r.Accepted, "adopt/rejected-by-server")
-			verifC04RefsEqual(r.Rev.OwnerReferences, verifC04Refs(k, true, false), "adopt/ownerReferences")
+			verifC04RefsEqual(r.Rev.OwnerReferences, verifC04LiveRefs(k, true), "adopt/ownerReferences")
 		case "release":
 			rt.Assert(r.Accepted, "release/rejected-by-server")
-			verifC04RefsEqual(r.Rev.OwnerReferences, verifC04Refs(k, false, false), "release/ownerReferences")
+			verifC04RefsEqual(r.Rev.OwnerReferences, verifC04LiveRefs(k, false), "release/ownerReferences")
 		case "rejected":
 			if firstAdoptWrite < 0 {
 				firstAdoptWrite = j
@@ -787,9 +819,9 @@ func VerifC04_RevisionClaims() {
 		rt.Assert(verifC04CountControllers(st.OwnerReferences) <= 1, "store/two-controller-references")
 		switch written[i] {
 		case "adopt":
-			verifC04RefsEqual(st.OwnerReferences, verifC04Refs(k, true, false), "store/adopted-ownerReferences")
+			verifC04RefsEqual(st.OwnerReferences, verifC04LiveRefs(k, true), "store/adopted-ownerReferences")
 		case "release":
-			verifC04RefsEqual(st.OwnerReferences, verifC04Refs(k, false, false), "store/released-ownerReferences")
+			verifC04RefsEqual(st.OwnerReferences, verifC04LiveRefs(k, false), "store/released-ownerReferences")
 		default:
 			verifC04RefsEqual(st.OwnerReferences, live[i].OwnerReferences, "store/untouched-revision-changed")
 			rt.Assert(st.ResourceVersion == live[i].ResourceVersion, "store/untouched-revision-changed/resourceVersion")
